@@ -1088,7 +1088,7 @@ func faultPart() runner.Part {
 	tars := [][]enumx.Ent{
 		{{Name: "a", Type: tar.TypeReg, Size: 4, Mode: 0o644}},
 		{{Name: "d/", Type: tar.TypeDir, Mode: 0o755}, {Name: "d/f", Type: tar.TypeReg, Size: 7, Mode: 0o644}, {Name: "e", Type: tar.TypeReg, Size: 0, Mode: 0o644}},
-		{{Name: "a", Type: tar.TypeReg, Size: 9, Mode: 0o644}, {Name: "b", Type: tar.TypeReg, Size: 700, Mode: 0o644}, {Name: "h", Type: tar.TypeLink, Link: "a", Mode: 0o644}, {Name: "c", Type: tar.TypeReg, Size: 3, Mode: 0o644}},
+		{{Name: "a", Type: tar.TypeReg, Size: 9, Mode: 0o644}, {Name: "b", Type: tar.TypeReg, Size: 20, Mode: 0o644}, {Name: "h", Type: tar.TypeLink, Link: "a", Mode: 0o644}, {Name: "c", Type: tar.TypeReg, Size: 3, Mode: 0o644}},
 	}
 	type cc struct {
 		comp  string
@@ -1096,7 +1096,7 @@ func faultPart() runner.Part {
 	}
 	return runner.Part{
 		Name:   "dest-fault",
-		Shards: 8,
+		Shards: 16,
 		Run: func(ctx *runner.Ctx) *runner.Result {
 			res := &runner.Result{Outcomes: map[string]int{}}
 			seen := map[string]bool{}
@@ -1106,11 +1106,11 @@ func faultPart() runner.Part {
 			for ti, es := range tars {
 				for _, mode := range []string{"append", "lossless", "append2"} {
 					// level 0 (stored blocks) makes the output exceed the Writer's 4 KiB buffer, so that
-					// faults hit intermediate flushes as well as the final one (largest tar only);
+					// faults hit intermediate flushes as well as the final one (3-entry tar only);
 					// min-chunk 256 (shared streams) with gzip on the 3-entry tar
 					for _, k := range []cc{{"gzip", 1}, {"gzip", 0}, {"zstd", 1}, {"ext", 1}} {
 						for _, min := range []int{0, 256} {
-							if mode == "append2" && len(es) < 2 || k.level == 0 && (ti != len(tars)-1 || mode == "append2") ||
+							if mode == "append2" && len(es) < 2 || k.level == 0 && (ti != 1 || mode == "append2") ||
 								min > 0 && (ti != 2 || k != cc{"gzip", 1}) {
 								continue
 							}
@@ -1190,7 +1190,7 @@ func main() {
 		Rule: "every tar of <= N entries (quick: <=2 over the full alphabet, 3 over the 7-symbol core alphabet {d/, a:0, a:cs+1, a:2cs+1, d/f:cs, hardlink, xattr file}; thorough: <=3 full, 4 core) over the alphabet {dir d/, file a with size 0,1,cs-1,cs,cs+1,2cs+1, nested file d/f with size 0,cs,2cs+1, symlink, hardlink, file with xattrs/owner/mtime; repeated names = duplicates} " +
 			"x {Build, Writer.AppendTar, AppendTar twice, AppendTarLossLess} x chunk size {3,8,default} x min-chunk-size {0,5,64,256} x {gzip, zstd:chunked, external TOC} x prioritized {none, one} x input {plain, gzip, zstd, already-eStargz} x workers 1..4 (GOMAXPROCS and WithParallelism); " +
 			"plus files of 4MiB-1, 4MiB, 4MiB+1, 8MiB+1 under the default chunk size; plus (combine) every ordering of 4 and 5 entries of {a(cs+1), empty b, c(2cs+1), empty e, d/} x workers {2,3} x {gzip, zstd} at chunk 3; " +
-			"plus (dest-fault) 3 small tars x {AppendTar, AppendTar twice, AppendTarLossLess} x {gzip level 1, zstd, external TOC; gzip level 0 (output > 4 KiB buffer) on the largest; min-chunk 256 with gzip on one} with a destination that fails after q bytes for EVERY q < len(output): an error must surface or the output be complete. Oracles: archive/tar + compress/gzip|zstd on the whole blob, a from-the-spec footer/TOC/chunk reader incl. ranged reads [offset, next offset), sha256 of TOC JSON and decompressed stream, byte equality in lossless mode. " +
+			"plus (dest-fault) 3 small tars x {AppendTar, AppendTar twice, AppendTarLossLess} x {gzip level 1, zstd, external TOC; gzip level 0 (output > 4 KiB buffer) on one; min-chunk 256 with gzip on one} with a destination that fails after q bytes for EVERY q < len(output): an error must surface or the output be complete. Oracles: archive/tar + compress/gzip|zstd on the whole blob, a from-the-spec footer/TOC/chunk reader incl. ranged reads [offset, next offset), sha256 of TOC JSON and decompressed stream, byte equality in lossless mode. " +
 			"non-trivial = case whose blob holds >= 2 data chunks (offset bookkeeping matters)",
 		Assumptions: []string{
 			"archive/tar, compress/gzip, compress/flate and klauspost/compress/zstd decoders are correct (they are the oracle)",
